@@ -4,13 +4,14 @@ from core import Case, q, qs, fr, show_list, show_pts
 import gen as G
 import shapes as S
 import knotops as KO
+import rowsops as RO
 
 PID = 'C05'
 FLOAT_KINDS = {'refine-op', 'refine-helper'}      # float-mode companion (core.float_companion)
 FLOAT_TOL = 1e-8
 STATS = G.STATS
 PARTIAL = [
-    "A5.4 as coded is now MODELLED (refineA54 / knotRefinementA54: literal transcription of the loops of helpers.knot_refinement, run against the real function by the streams refa54 / refa54h) and PROVED equal to the specification-level model (fold of single A5.1 insertions: knot vector and control points) - for CURVE-level calls with a knot vector clamped at the start in which no value occurs more than p+1 times (general form: every basis function of the refined curve has support, SuppOk); the surface / volume branch of the helper (control points that are lists of points, `else` branch of isinstance(ctrlpts[0][0], float)) is the same arithmetic applied row-wise and is covered by the correspondence through operations.refine_knotvector only; the object-level theorems (refineDir, refineKnotvector) remain about the specification-level model",
+    "A5.4 as coded is now MODELLED (refineA54 / knotRefinementA54: literal transcription of the loops of helpers.knot_refinement, run against the real function by the streams refa54 / refa54h) and PROVED equal to the specification-level model (fold of single A5.1 insertions: knot vector and control points) - for CURVE-level calls with a knot vector clamped at the start in which no value occurs more than p+1 times (general form: every basis function of the refined curve has support, SuppOk); the list-of-rows branch of the helper (`else` branch of isinstance(ctrlpts[0][0], float), what operations.refine_knotvector feeds for VOLUMES) is now MODELLED literally too (refineA54Rows / knotRefinementRows / refineVolRows, streams refine-rows / refine-vol-rows against the real helper called with rows and against operations.refine_knotvector) and PROVED: every iso-curve of A5.4 on rows is A5.4 of that iso-curve with the same knot vector (refineA54Rows_isocurve, knotRefinementRows_isocurve: only c < len(ctrlpts[0])), and one direction of refine_knotvector on a volume computed through the rows IS refineDir (refineVolRows_is_refineDir, refineVolRows_preserves_volume; hypotheses: VolWF with point dimension > 0, DirHyp, knot vector of the direction clamped at the start, no value more than p+1 times). The SURFACE branch of operations.refine_knotvector calls the helper per iso-curve (point branch) and is covered by the curve-level theorems; the object-level theorems (refineDir, refineKnotvector) remain about the specification-level model. In the rows branch the helper writes into the rows of its INPUT (new_ctrlpts[j] = ctrlpts[j] then new_ctrlpts[idx-1][idx2] = ...): the mutated input rows are never read again, so the model is value-semantic; the mutation of the caller's rows is not modelled (operations.refine_knotvector builds fresh rows)",
     "the theorems about refineA54 need: X non-empty, sorted, inside [U_p, U_n), old knots and X tolerance separated, final multiplicities <= p (all satisfied by the list X the code computes: genX_hyps); for other X (e.g. a knot raised above multiplicity p) nothing is proved",
     "curves, surfaces and volumes (helper level; refineDir in every direction of a surface / volume; refine_knotvector on any subset of the two / three directions: refineKnotvector_preserves_surface, refineDir_preserves_volume, refineKnotvector_preserves_volume) are proved end-to-end under explicit hypotheses: well-formed object (CurveWF / SurfWF / VolWF), knot vector clamped at the END of each refined direction, 0 <= tol and tolerance separation of the old knots and the bisection knots of each refined direction (equal or further apart than tol), all stated on the ORIGINAL object",
     "rational objects: the theorems are about the homogeneous net (coordinatewise); the projection step is C01/C09's",
@@ -107,6 +108,42 @@ def gen(rng, tier):
         G.count('density', 'tol-probe')
         line = "ops c %s F 1" % S.args(d)
         out.append(Case('refine-op', line, dict(shape=d, dens=[1]), tags=('tol-probe',)))
+    # the LIST-OF-ROWS branch of helpers.knot_refinement (what operations.refine_knotvector feeds for volumes),
+    # helper level, against `knotRefinementRows` / `refineA54Rows` (A5.4 as coded on rows)
+    for _ in range(30 if tier == 'quick' else 400):
+        if rng.random() < .4:
+            d = S.rand_volume(rng, maxp=3, max_interior=2, allow_range=False)
+            i = rng.randrange(3)
+            p, kv, n_ = S.dirs(d)[i]
+            R = RO.gather(d, i)
+        else:
+            p = rng.randint(1, 4)
+            kv, n_, R = RO.rand_rows(rng, p)
+        dom = sorted(set(kv[p:n_ + 1]))
+        mode = rng.random()
+        kl, add = None, []
+        if mode < .45:
+            kl = sorted(set(rng.choice(dom) if rng.random() < .3 else kv[p] + (kv[n_] - kv[p]) * F(rng.randint(1, 99), 100)
+                            for _ in range(rng.randint(1, 3))))
+        elif mode < .6:
+            add = [kv[p] + (kv[n_] - kv[p]) * F(rng.randint(1, 99), 100) for _ in range(rng.randint(1, 2))]
+        dens = rng.choice([1, 1, 2])
+        G.count('rows_refine', ('default' if kl is None else len(kl), len(add), dens))
+        data = dict(p=p, kv=kv, R=R, kl=kl, add=add, dens=dens)
+        out.append(Case('refine-rows', RO.rows_line('rowsrefh', p, kv, R, 'default' if kl is None else show_list(kl), show_list(add), dens), data))
+        X = _xlist(p, kv, kl, add, dens)
+        if X:
+            out.append(Case('refine-rows', RO.rows_line('rowsref', p, kv, R, show_list(X)), data))
+    # one direction of operations.refine_knotvector on a volume against the gather / A5.4-on-rows / scatter model
+    for _ in range(20 if tier == 'quick' else 240):
+        d = S.rand_volume(rng, maxp=3, max_interior=2)
+        i = rng.randrange(3)
+        reqs = [[i, 1]]
+        if rng.random() < .3:
+            reqs.append([rng.choice([x for x in range(3) if x != i]), 1])
+        G.count('rows_vol_refine', len(reqs))
+        line = "rowsvol v %s %s" % (S.args(d), " ".join("F %d %d" % (a, b) for a, b in reqs))
+        out.append(Case('refine-vol-rows', line, dict(shape=d, reqs=reqs)))
     return out
 
 
@@ -131,8 +168,35 @@ def _helper(c):
     return helpers.knot_refinement(d['p'], qs(d['kv']), qpts(d['P']), **kw)
 
 
+def _rows_call(c, R=None):
+    from geomdl import helpers
+    x = c.data
+    kw = dict(density=x['dens'])
+    if x['kl'] is not None:
+        kw['knot_list'] = qs(x['kl'])
+    if x['add']:
+        kw['add_knot_list'] = qs(x['add'])
+    Q, kv2 = helpers.knot_refinement(x['p'], qs(x['kv']), RO.qrows(x['R']) if R is None else R, **kw)
+    return Q, [v.q if hasattr(v, 'q') else F(v) for v in kv2]
+
+
+def _vol_rows(c):
+    from geomdl import operations
+    o = S.build(c.data['shape'])
+    for i, dd in c.data['reqs']:
+        dens = [0] * 3; dens[i] = dd
+        operations.refine_knotvector(o, dens)
+    return o
+
+
 def impl(c):
     from geomdl import operations
+    if c.kind == 'refine-rows':
+        from core import show_pts2
+        Q, kv2 = _rows_call(c)
+        return "%s %s" % (show_list(kv2), show_pts2(RO.unq(Q)))
+    if c.kind == 'refine-vol-rows':
+        return KO.show_shape(S.from_obj(_vol_rows(c)))
     d = c.data['shape']
     if c.kind in ('refine-helper', 'refine-a54'):
         Q, kv2 = _helper(c)
@@ -142,8 +206,39 @@ def impl(c):
     return KO.show_shape(S.from_obj(o))
 
 
+def _oracle_rows(c):
+    """the rows branch must return, iso-curve by iso-curve, what the point branch returns"""
+    x = c.data
+    X = _xlist(x['p'], x['kv'], x['kl'], x['add'], x['dens'])
+    try:
+        Q, kv2 = _rows_call(c)
+    except Exception as e:
+        return None if not X else "knot_refinement on rows raised %s: %s" % (type(e).__name__, e)
+    Q = RO.unq(Q)
+    cols = []
+    for j in range(len(x['R'][0])):
+        col = [[q(v) for v in pt] for pt in RO.column(x['R'], j)]
+        Qc, kvc = _rows_call(c, col)
+        if kvc != kv2:
+            return "knot vector returned for rows differs from the one returned for an iso-curve"
+        cols.append(RO.unq([Qc])[0])
+    if Q != RO.from_columns(cols):
+        return "knot_refinement on a list of rows differs from knot_refinement applied to every iso-curve"
+    return None
+
+
 def oracle(c):
     from geomdl import operations
+    if c.kind == 'refine-rows':
+        return _oracle_rows(c)
+    if c.kind == 'refine-vol-rows':
+        d = c.data['shape']
+        try:
+            o = _vol_rows(c)
+        except Exception as e:
+            return "refine_knotvector raised %s: %s" % (type(e).__name__, e)
+        after = S.from_obj(o)
+        return KO.same_points(d, after, KO.probe_params(after))
     d = c.data['shape']
     dens = c.data['dens']
     if c.kind == 'refine-a54':
